@@ -32,9 +32,9 @@ func (m *Map[K, V]) LoadOrStoreFn(key K, f func() V) (V, bool) {
 	if v, loaded := m.Load(key); loaded {
 		return v, true
 	}
-	v := f()
-	m.m.Store(key, v)
-	return v, false
+	//f may run concurrently for one key, but only one result is ever stored: every caller gets the stored one
+	actual, loaded := m.m.LoadOrStore(key, f())
+	return actual.(V), loaded
 }
 
 func (m *Map[K, V]) Delete(key K) {
